@@ -344,6 +344,13 @@ def file_check(b, ctx, st, flagged, w, what):
         return
     bad = AM.compare(AM.resolve(c, ids=oid if len(c) == len(oid) else None), mb, check_pos=False, fields=("el", "label", "mass", "pair", "charge", "group"), term_extras=False, mass_tol=1e-6)
     report(ctx, st, bad, flagged, w, what + " read back from its LAMMPS data file")
+    # ... and every coefficient table, also of a kind that has (or has by now) no terms, entry for entry
+    if not flagged:
+        for name in ["pair_coeffs"] + ["%s_type_coeffs" % k for k in atomsgen.KNAMES]:
+            x, y = [str(v).split("#")[0].split() for v in getattr(c, name)], [str(v).split("#")[0].split() for v in getattr(b, name)]
+            if x != y:
+                ctx.fail("%s: %s read back from the LAMMPS data file has %d entries %s, the structure's has %d %s" % (what, name, len(x), x[:2], len(y), y[:2]), witness=w)
+        st.count("coefficient_tables_read_back")
     # "reads back to the same structure": cell and coordinates to the printed precision (6 decimals)
     if b.cell is not None and len(c) == len(b):
         if c.cell is None or np.abs(np.array(c.cell, float) - np.array(b.cell, float)).max() > 0.5e-6 + 1e-9:
